@@ -609,8 +609,20 @@ def gen_plain(rng, tier):
                    "link": hx(rand_path(rng, rng.randint(1, 120 if fmt != "ustar" else 90))), "seed": rng.randrange(256),
                    "pax": {"comment": "x" * rng.randint(1, 30)} if fmt == "pax" and rng.chance(0.3) else {},
                    "uname": rng.pick(["", "root", "ü" if fmt == "pax" else "u"])})
-    return {"stream": "plain", "fmt": fmt, "members": ms, "access": rng.weighted([("open", 4), ("visortarfile", 3), ("gz", 2), ("iter", 2)]),
-            "trail_blocks": rng.pick([0, 0, 3]), "global_pax": fmt == "pax" and rng.chance(0.2)}
+    c = {"stream": "plain", "fmt": fmt, "members": ms, "access": rng.weighted([("open", 4), ("visortarfile", 3), ("gz", 2), ("iter", 2)]),
+         "trail_blocks": rng.pick([0, 0, 3]), "global_pax": fmt == "pax" and rng.chance(0.2)}
+    if rng.chance(0.35):
+        # an old-GNU sparse member ('S': up to four (offset, length) segments in the header, the real size behind them) in
+        # front of the others: tarfile cannot write one, every tar reader expands it (holes read as zeros)
+        segs, pos = [], 0
+        for _ in range(rng.randint(1, 4)):
+            pos += 512 * rng.randint(0, 6)
+            ln = 512 * rng.randint(1, 3) if rng.chance(0.7) else rng.randint(1, 1500)
+            segs.append([pos, ln])
+            pos += (ln + 511) // 512 * 512
+        c["sparse"] = {"name": hx(b"var/sparse-" + bytes([97 + rng.randrange(26)]) + b".img"), "segs": segs,
+                       "realsize": pos + 512 * rng.randint(0, 5), "seed": rng.randrange(256)}
+    return c
 
 
 def build_plain(case) -> bytes:
@@ -632,7 +644,23 @@ def build_plain(case) -> bytes:
             if m["pax"]:
                 ti.pax_headers = dict(m["pax"])
             t.addfile(ti, io.BytesIO(pat_bytes(m["seed"], 0, m["size"])) if m["kind"] == "file" else None)
-    return bio.getvalue() + b"\0" * (512 * case["trail_blocks"])
+    data = bio.getvalue() + b"\0" * (512 * case["trail_blocks"])
+    sp = case.get("sparse")
+    if sp:
+        stored = sum(ln for _, ln in sp["segs"])
+        ti = tarfile.TarInfo(unhx(sp["name"]).decode())
+        ti.type = tarfile.GNUTYPE_SPARSE
+        ti.size = stored
+        h = bytearray(ti.tobuf(tarfile.GNU_FORMAT))
+        for k, (off, ln) in enumerate(sp["segs"]):
+            h[386 + 24 * k:386 + 24 * k + 24] = octf(12, off) + octf(12, ln)
+        h[482] = 0
+        h[483:495] = octf(12, sp["realsize"])
+        h[148:156] = b" " * 8
+        h[148:156] = b"%06o\0 " % sum(h)
+        body = pat_bytes(sp["seed"], 0, stored)
+        data = bytes(h) + body + b"\0" * (block_up(stored) - stored) + data
+    return data
 
 
 SAMPLE = {b"test": None, b"test/file1": b"a" * 512 + b"\n", b"test/file2": b"b" * 1024 + b"\n", b"test/file3": b"c" * 2048 + b"\n",
@@ -1036,12 +1064,26 @@ class VmTarSuite(Suite):
                                       f"content: {sorted(got)}", sig + ":sample"))
         if stream == "plain" and impl_outcome(rv) == "ok":
             # and the standard reader returns what was written
+            members = list(rv["members"])
+            sp = case.get("sparse")
+            if sp and members:
+                # the sparse member in front: its size is the real size, its content the segments at their offsets, zeros between
+                exp = bytearray(sp["realsize"])
+                k = 0
+                for off, ln in sp["segs"]:
+                    exp[off:off + ln] = pat_bytes(sp["seed"], 0, sum(x for _, x in sp["segs"]))[k:k + ln]
+                    k += ln
+                m0 = members.pop(0)
+                if m0["size"] != sp["realsize"] or m0.get("x") != bytes(exp):
+                    fs.append(Finding("impl_vs_spec", f"plain archive: the sparse member {unhx(sp['name'])} (real size {sp['realsize']}, "
+                                      f"segments {sp['segs']}) extracts to {len(m0.get('x') or b'') if isinstance(m0.get('x'), bytes) else m0.get('x')} "
+                                      f"bytes that are not its expanded content", sig + ":plain-sparse"))
             want = [(unhx(m["name"]), m["size"]) for m in case["members"]]
-            got = [(m["name"], m["size"]) for m in rv["members"]]
+            got = [(m["name"], m["size"]) for m in members]
             if [w[1] for w in want] != [g[1] for g in got]:
                 fs.append(Finding("impl_vs_spec", f"plain archive: sizes {got} vs written {want}", sig + ":plain-sizes"))
             else:
-                for m, w in zip(rv["members"], case["members"]):
+                for m, w in zip(members, case["members"]):
                     if w["kind"] == "file" and m.get("x") != pat_bytes(w["seed"], 0, w["size"]):
                         fs.append(Finding("impl_vs_spec", f"plain archive: member {w['name']} content differs from what was written",
                                           sig + ":plain-content"))
